@@ -193,6 +193,11 @@ def main(run, args):
     cases = []
     impl_errors = []
     for (r, c), ans in zip(reqs, answers):
+        if "err" in ans and c["kind"] == "export" and c["len"] == 0:
+            # a zero-length export is refused by some providers (an error, not a wrong value);
+            # provider agreement on it is C14's business
+            run.cov["refused_zero_length_exports"] = run.cov.get("refused_zero_length_exports", 0) + 1
+            continue
         if "err" in ans or "panic" in ans:
             impl_errors.append({"request": r, "answer": ans})
             continue
